@@ -307,3 +307,187 @@ theorem stationSelect_compat (R : Rng) (g g' : R.G) (h : Hk) (cfg : Cfg) (gc : G
         exact fin _ _ _ _ hacc hc
 
 end CJ.Phantom
+
+namespace CJ.Phantom
+
+/-- contract of `net.ParseCIDR` for one parsed subnet: it gets no more ids than it has addresses
+(IPv4: mask of 32 bits, or the IPv4-mapped notation with `ones ≥ 96`), and all its addresses fit the
+address length of its family -/
+def RawNet.Conforms (r : RawNet) : Prop :=
+  (if r.v4 then 2 ^ (32 - r.ones) else 2 ^ (128 - r.ones)) ≤ 2 ^ (r.bits - r.ones) ∧ r.Fits
+
+def Net.WF (n : Net) : Prop := n.toRawNet.Conforms
+
+theorem count_pos (n : Net) : 0 < count n := by
+  unfold count; split <;> exact Nat.two_pow_pos _
+
+theorem offset_ok {n : Net} (hn : n.WF) {off : Nat} (h : off < count n) :
+    ∃ a, selectAddrFromSubnetOffset n off = .ok a := by
+  unfold selectAddrFromSubnetOffset encodeAddr fillBytes
+  simp only
+  have hc : count n ≤ 2 ^ (n.bits - n.ones) := hn.1
+  have h1 : ¬ 2 ^ (n.bits - n.ones) ≤ off := by omega
+  rw [if_neg h1]
+  have h2 : n.base + off < 256 ^ famLen n.v4 := by
+    have := hn.2; unfold RawNet.Fits at this; omega
+  rw [if_pos h2]
+  exact ⟨_, rfl⟩
+
+/-- with conforming subnets the search loop cannot fail, and keeps a result it already has -/
+theorem findHkdf_total (nets : List Net) (hw : ∀ n ∈ nets, n.WF) (acc id : Nat) (r : Option Addr) :
+    ∃ r', findHkdf (idNets nets acc) id r = .ok r' ∧ (r.isSome = true → r'.isSome = true) ∧
+      (acc ≤ id → id < acc + addressTotal nets → r'.isSome = true) := by
+  induction nets generalizing acc r with
+  | nil => exact ⟨r, rfl, fun h => h, fun h1 h2 => by simp [addressTotal] at h2; omega⟩
+  | cons n rest ih =>
+    have hn := hw n (List.mem_cons_self ..)
+    have hrest : ∀ m ∈ rest, m.WF := fun m hm => hw m (List.mem_cons_of_mem _ hm)
+    have hc := count_pos n
+    simp only [idNets, findHkdf]
+    have htot : addressTotal (n :: rest) = count n + addressTotal rest := by simp [addressTotal]
+    split
+    · rename_i hhit
+      obtain ⟨a, ha⟩ := offset_ok hn (off := id - acc) (by omega)
+      rw [ha]
+      simp only
+      obtain ⟨r', h1, h2, _⟩ := ih hrest (acc + count n) (some a)
+      exact ⟨r', h1, fun _ => h2 rfl, fun _ _ => h2 rfl⟩
+    · rename_i hmiss
+      obtain ⟨r', h1, h2, h3⟩ := ih hrest (acc + count n) r
+      refine ⟨r', h1, h2, ?_⟩
+      intro hlo hhi
+      apply h3 <;> omega
+
+theorem randIntLoop_err {s : Stream} {lim k b max fuel pos : Nat} {e : Err}
+    (h : randIntLoop s lim k b max fuel pos = .err e) : e = .entropy := by
+  induction fuel generalizing pos with
+  | zero => simp [randIntLoop] at h; exact h.symm
+  | succ f ih =>
+    simp only [randIntLoop] at h
+    split at h
+    · cases h; rfl
+    · split at h
+      · cases h
+      · exact ih h
+
+/-- the only error of `rand.Int` is the reader's -/
+theorem randInt_err {s : Stream} {lim max : Nat} {e : Err} (h : randInt s lim max = .err e) : e = .entropy := by
+  unfold randInt at h
+  split at h
+  · cases h
+  · simp only at h
+    split at h
+    · cases h
+    · exact randIntLoop_err h
+
+/-- **No "impossible" errors**: on subnets that conform to `net.ParseCIDR`'s contract the HKDF
+selector ends in an address, `ErrMissingAddrs` (nothing to select from) or the reader's entropy limit —
+never in "nil result", "offset too big" or an address that does not fit. -/
+theorem selectHkdf_total (s : Stream) (lim : Nat) (nets : List Net) (hw : ∀ n ∈ nets, n.WF) :
+    (∃ a, selectHkdf s lim nets = .ok a) ∨ selectHkdf s lim nets = .err .noAddrs ∨
+      selectHkdf s lim nets = .err .entropy := by
+  unfold selectHkdf
+  simp only
+  split
+  · exact Or.inr (Or.inl rfl)
+  · rename_i htot
+    cases hr : randInt s lim (addressTotal nets) with
+    | ok id =>
+      simp only
+      obtain ⟨r', h1, _, h3⟩ := findHkdf_total nets hw 0 id none
+      rw [h1]
+      have := h3 (Nat.zero_le _) (by have := randInt_lt hr; omega)
+      cases r' with
+      | none => cases this
+      | some a => exact Or.inl ⟨a, rfl⟩
+    | err e =>
+      simp only
+      right; right
+      rw [randInt_err hr]
+    | panic w => exact absurd hr (randInt_not_panic htot w)
+
+end CJ.Phantom
+
+namespace CJ.Phantom
+
+theorem parseNets_err {rp : Bool} {l : List (Option RawNet)} {e : Err} (h : parseNets rp l = .err e) : e = .parse := by
+  induction l with
+  | nil => simp [parseNets] at h
+  | cons x rest ih =>
+    cases x with
+    | none => simp [parseNets] at h; exact h.symm
+    | some r =>
+      simp only [parseNets] at h
+      split at h
+      · cases h
+      · cases h; exact ih ‹_›
+      · cases h
+
+theorem parseGroup_err {g : Group} {e : Err} (h : parseGroup g = .err e) : e = .emptyGroup ∨ e = .parse := by
+  unfold parseGroup at h
+  split at h
+  · cases h; exact Or.inl rfl
+  · exact Or.inr (parseNets_err h)
+
+theorem concatAll_err {gs : List Group} {e : Err} (h : concatAll gs = .err e) : e = .emptyGroup ∨ e = .parse := by
+  induction gs with
+  | nil => simp [concatAll] at h
+  | cons g rest ih =>
+    simp only [concatAll] at h
+    split at h
+    · split at h
+      · cases h
+      · cases h; exact ih ‹_›
+      · cases h
+    · cases h; exact parseGroup_err ‹_›
+    · cases h
+
+theorem getSubnetsHkdf_err {s : Stream} {lim : Nat} {c : GenCfg} {e : Err} (h : getSubnetsHkdf s lim c = .err e) :
+    e = .zeroWeight ∨ e = .entropy ∨ e = .emptyGroup ∨ e = .parse := by
+  unfold getSubnetsHkdf at h
+  split at h
+  · cases h
+  · simp only at h
+    split at h
+    · cases h; exact Or.inl rfl
+    · split at h
+      · split at h
+        · exact Or.inr (Or.inr (parseGroup_err h))
+        · exact Or.inr (Or.inr (concatAll_err h))
+      · cases h; exact Or.inr (Or.inl (randInt_err ‹_›))
+      · cases h
+
+/-- versions ≥ 2: the station's selection *is* the client's `SelectPhantom` on that generation -/
+theorem stationSelect_eq_client {h : Hk} {cfg : Cfg} {gc : GenCfg} (seed : Bytes) {gen ver : Nat} (v6 : Bool)
+    (hg : cfg.lookup gen = some gc) (hv : hkdfMinVersion ≤ ver) :
+    stationSelect h cfg seed gen ver v6 = .done (clientSelect h gc seed v6) := by
+  unfold stationSelect clientSelect
+  have h2 : ¬ ver < hkdfMinVersion := by omega
+  have h1 : ¬ ver < selectionMinGeneration := by
+    unfold hkdfMinVersion at hv; unfold selectionMinGeneration; omega
+  rw [hg]
+  simp only [subnetsByVersion, if_neg h2, if_neg h1, Prog.bind_eq, Prog.bind]
+  cases getSubnetsHkdf (h.hk seed labelSubnet) h.lim gc <;> rfl
+
+/-- `SelectPhantom` on a configuration whose subnets conform to `net.ParseCIDR`'s contract: the only
+errors are the ones a configuration or the reader can cause -/
+theorem clientSelect_errors {h : Hk} {gc : GenCfg} {seed : Bytes} {v6 : Bool} {e : Err}
+    (hw : ∀ grp ∈ gc.groups, ∀ r, some r ∈ grp.nets → r.Conforms)
+    (he : clientSelect h gc seed v6 = .err e) :
+    e = .zeroWeight ∨ e = .entropy ∨ e = .emptyGroup ∨ e = .parse ∨ e = .noAddrs := by
+  unfold clientSelect at he
+  split at he
+  · rename_i nets hn
+    have hwf : ∀ n ∈ famFilter v6 nets, n.WF := by
+      intro n hm
+      obtain ⟨grp, hg, hmem, _⟩ := getSubnetsHkdf_ok hn n (mem_famFilter hm).1
+      exact hw grp hg _ hmem
+    rcases selectHkdf_total (h.hk seed labelAddr) h.lim _ hwf with ⟨a, ha⟩ | h1 | h1
+    · rw [ha] at he; cases he
+    · rw [h1] at he; cases he; simp
+    · rw [h1] at he; cases he; simp
+  · cases he
+    rcases getSubnetsHkdf_err ‹_› with h1 | h1 | h1 | h1 <;> simp [h1]
+  · cases he
+
+end CJ.Phantom
